@@ -181,6 +181,27 @@ def programs(tier):
            "sinks": [("t", "ri", lambda st: st["a.i"] * 2), ("m", "ri", lambda st: st["a.i"] + st["a.j"]),
                      ("t", "rb", lambda st: st["a.i"] > st["a.j"])],
            "props": [("a.i", INT_DOM), ("a.j", INT_DOM)]}
+    # grouped values: every member that is dynamic stays current, whatever its neighbours are
+    yield {"name": "group/dotted-mixed",
+           "source": HEAD + "    VObj { id: t; font.family: \"x\"; font.pointSize: a.i + 1 }\n}\n",
+           "sinks": [("t", "font().pointSize", lambda st: st["a.i"] + 1, "I")], "props": [("a.i", INT_DOM)]}
+    yield {"name": "group/braces-mixed",
+           "source": HEAD + "    VObj { id: t; font { family: \"x\"; pointSize: a.i; bold: b0.b; italic: true } }\n}\n",
+           "sinks": [("t", "font().pointSize", lambda st: st["a.i"], "I"), ("t", "font().bold", lambda st: st["b0.b"], "B")],
+           "props": [("a.i", INT_DOM), ("b0.b", BOOL_DOM)]}
+    yield {"name": "group/all-dynamic",
+           "source": HEAD + "    VObj { id: t; font.pointSize: a.i; font.bold: a.b }\n}\n",
+           "sinks": [("t", "font().pointSize", lambda st: st["a.i"], "I"), ("t", "font().bold", lambda st: st["a.b"], "B")],
+           "props": [("a.i", INT_DOM), ("a.b", BOOL_DOM)]}
+    yield {"name": "group/sizepolicy-mixed",
+           "source": HEAD + "    VObj { id: t; sizePolicy { horizontalPolicy: QSizePolicy.Fixed; verticalPolicy: QSizePolicy.Fixed; "
+                            "horizontalStretch: c0.b ? a.i : b0.i } }\n}\n",
+           "sinks": [("t", "sizePolicy().horizontalStretch", lambda st: st["a.i"] if st["c0.b"] else st["b0.i"], "I")],
+           "props": [("c0.b", BOOL_DOM), ("a.i", INT_DOM), ("b0.i", INT_DOM)]}
+    yield {"name": "group/mixed-plus-plain-binding",
+           "source": HEAD + "    VObj { id: t; font.bold: true; font.pointSize: a.i; ri: a.i * 2 }\n}\n",
+           "sinks": [("t", "font().pointSize", lambda st: st["a.i"], "I"), ("t", "ri", lambda st: st["a.i"] * 2)],
+           "props": [("a.i", INT_DOM)]}
     yield {"name": "list/element",
            "source": HEAD + "    VObj { id: t; rs: a.sl.isEmpty() ? \"-\" : a.sl[0] }\n}\n",
            "sinks": [("t", "rs", lambda st: st["a.sl"][0] if st["a.sl"] else "-")],
@@ -225,8 +246,9 @@ def build_program(vd, k, prog, depth, t):
         st = {k2: d[i] for (k2, d), i in zip(props, combo)}
         try:
             vals = []
-            for (obj, prop, fn) in prog["sinks"]:
-                vals.append(render_sink(rv.PROP_KIND[prop], fn(st)))
+            for sink in prog["sinks"]:
+                (obj, prop, fn) = sink[:3]
+                vals.append(render_sink(sink[3] if len(sink) > 3 else rv.PROP_KIND[prop], fn(st)))
             expected.append('"' + ";".join(vals) + '"')
         except (U, rv.Undefined):
             expected.append("nullptr")
@@ -264,7 +286,7 @@ def build_program(vd, k, prog, depth, t):
                 val = rv.cxx_value(kd, v)
             inner.append(f"case {vi}: {setter}({val}); break;")
         cases.append(f"case {i}: switch (d) {{ {' '.join(inner)} }} break;")
-    targets = ' + ";" + '.join(f"verif::showValue({o}_obj.{p}())" for o, p, _f in prog["sinks"])
+    targets = ' + ";" + '.join(f"verif::showValue({sk[0]}_obj.{sk[1]}())" for sk in prog["sinks"])
     all_objs = ["root_obj"] + [f"{n}_obj" for cls, n in members if cls != "QSpacerItem"]
     conn_code = " ".join(
         f'for (auto &c : static_cast<QObject &>({o}).conns) if (c->connected) {{ ++n; sig.push_back(static_cast<QObject &>({o}).vname + ":" + std::to_string(std::hash<std::string>()(c->key) % 9973)); }}'
@@ -436,11 +458,44 @@ def judge(t, p, res):
                   "props": m["props"]})
 
 
+def shipped_header_is_current(tally):
+    """What is explored above is the translation of a source; what a user compiles is the file the command
+    leaves behind.  For pairs of programs that differ only in a binding expression (identical .ui): generate,
+    replace the source, generate again in the same directory - the header on disk must be the translation
+    of the current source."""
+    import os
+    import subprocess
+    vd = vc.VDrive()
+    progs_ = [p for p in programs("quick") if p["name"].endswith("/unconditional")][:6]
+    with vc.scratch_dir("c02cli") as d:
+        for a, b in zip(progs_, progs_[1:] + progs_[:1]):
+            want = vd.job({"id": 0, "source": b["source"], "modes": ["generate"], "type_name": "Doc"})["modes"]["generate"]
+            first = vd.job({"id": 0, "source": a["source"], "modes": ["generate"], "type_name": "Doc"})["modes"]["generate"]
+            if not vc.accepted(want) or not vc.accepted(first):
+                continue
+            for text in (a["source"], b["source"]):
+                with open(os.path.join(d, "Doc.qml"), "w") as f:
+                    f.write(text)
+                p_ = subprocess.run([vc.QMLUIC_BIN, "generate-ui", "--foreign-types", vc.METATYPES, "--foreign-types", vc.VTYPES, "Doc.qml"],
+                                    cwd=d, stdout=subprocess.PIPE, stderr=subprocess.PIPE, timeout=60)
+                tally.inc("cli_regenerations")
+                if p_.returncode != 0:
+                    raise vc.MachineryError("the command rejected a program the library accepts: " + p_.stderr.decode("utf-8", "replace")[-400:])
+            got = open(os.path.join(d, "uisupport_doc.h")).read()
+            if got != want["header"]:
+                tally.violation("stale:header-on-disk-is-not-the-translation-of-the-current-source",
+                                {"program": b["name"], "source": b["source"], "previous_source": a["source"],
+                                 "same_ui": first["ui"] == want["ui"]})
+    vd.close()
+
+
 def main(tier, t0):
     vc.ensure_vdrive()
+    vc.ensure_cli()
     import qtmock
     qtmock.load_types()
     tally = vc.merge_tallies(vc.run_sharded(shard_work, {"tier": tier}))
+    shipped_header_is_current(tally)
     c = tally.counts
     cov = {
         "states": c.get("states", 0),
